@@ -168,7 +168,9 @@ def validate_evidence(path):
 def run_check(chk, tier, seed, replay=None):
     pid = chk["id"]
     t0 = time.time()
-    bt = build(chk["variants"], chk["bins"])
+    vf = chk.get("variants_for")
+    variants, bins = vf(tier) if vf and not replay else (chk["variants"], chk["bins"])
+    bt = build(variants, bins)
     if replay:
         rcs = []
         for argv in chk["replay_argv"](replay):
